@@ -40,4 +40,48 @@ pub(crate) mod verif_value {
         kani::cover!(r.is_err());
         assert!(post_to_number_value(x, &r), "to_number_value: result is not the exact JSON number for the double (or error/finite mismatch)");
     }
+
+    // ------------------------------------------------------------------ evaluator contract stubs
+    impl<'a> Parsed<'a> {
+        /// contract stub for `Parsed::from_value`: only rule text may be parsed (C04).
+        pub(crate) fn verif_from_value_stub(value: &'a Value) -> Result<Self, Error> {
+            match ev::node_index(value as *const Value) {
+                Some(i) => unsafe { ev::PARSE_COUNT[i] += 1 },
+                None => {
+                    unsafe { ev::FOREIGN_PARSE = true };
+                    assert!(false, "C04: the parser was applied to a value that is not rule text (data / computed value re-interpreted)");
+                }
+            }
+            Ok(Parsed::Raw(Raw { value }))
+        }
+        /// contract stub for `Parsed::evaluate`: log (node, data) and return the node's planned outcome.
+        pub(crate) fn verif_evaluate_stub(&self, data: &'a Value) -> Result<Evaluated, Error> {
+            let p = match self {
+                Parsed::Raw(r) => r.value as *const Value,
+                _ => {
+                    assert!(false, "evaluate on a Parsed the contract stub did not hand out");
+                    std::ptr::null()
+                }
+            };
+            let i = match ev::node_index(p) {
+                Some(i) => i,
+                None => {
+                    assert!(false, "evaluate on an unregistered node");
+                    0
+                }
+            };
+            unsafe {
+                let k = ev::LOG_N;
+                assert!(k < 16, "evaluation log overflow");
+                ev::LOG_NODE[k] = i;
+                ev::LOG_DATA[k] = data as *const Value;
+                ev::LOG_N = k + 1;
+                match ev::OUT_CLASS[i] {
+                    0 => Err(Error::UnexpectedError(String::new())),
+                    1 => Ok(Evaluated::New(crate::verif_support::value_clone_shallow(&*ev::OUT_VAL[i]))),
+                    _ => Ok(Evaluated::Raw(&*ev::OUT_VAL[i])),
+                }
+            }
+        }
+    }
 }
